@@ -47,7 +47,7 @@ macro "tail_cases" rq:ident sty:ident " with " extra:Lean.Parser.Tactic.simpLemm
 
 /-- reduce a statement about `specTrace` to `specTail` (scope created) or evaluate it (otherwise);
 goals that remain are split on the handler kind / outcome / failing middleware and retried -/
-macro "trace_cases" rq:ident sty:ident " with " extra:Lean.Parser.Tactic.simpLemma,* : tactic => `(tactic| (
+macro "trace_cases" rq:ident _sty:ident " with " extra:Lean.Parser.Tactic.simpLemma,* : tactic => `(tactic| (
   cases hI : ($rq).installed <;> cases hc : ($rq).create <;>
     rcases hd : ($rq).down with _ | ⟨r, rf⟩ <;> cases ho : ($rq).outcome <;> cases hm : mwFails $rq <;>
     try (cases r <;> cases rf)
@@ -205,5 +205,15 @@ theorem spec_noUse (sty : Style) (rq : Req) (s : Sid) : noUseAfterClose (specTra
 theorem spec_methodAfter (sty : Style) (rq : Req) (s : Sid) : methodAfterResolve (specTrace sty rq s) [] = true := by
   have ht := tail_methodAfter sty rq s
   trace_cases rq sty with methodAfterResolve, methodAfter_mwEvs_append, ht
+
+/-- a request that creates no scope mentions no scope -/
+theorem spec_unseen (sty : Style) (rq : Req) (s : Sid) (hc : created rq = false) :
+    (specTrace sty rq s).all (fun e => e.seen.isEmpty) = true := by
+  unfold specTrace
+  cases hI : rq.installed
+  · rcases hd : rq.down with _ | ⟨r, rf⟩ <;> cases ho : rq.outcome <;> simp [downSpec, hd, ho, Ev.seen]
+  · cases hcr : rq.create
+    · simp [created, hI, hcr] at hc
+    all_goals simp [Ev.seen]
 
 end Godi.Mw
